@@ -4,6 +4,7 @@ package world
 
 import (
 	"fmt"
+	"math/big"
 	"time"
 
 	"cosmossdk.io/math"
@@ -74,8 +75,9 @@ type Base struct {
 	GovAddr   string
 }
 
-// Generous is the default funding per denomination: 10^45, far above the main amount domain.
-var Generous = pow10(45)
+// Generous is the default funding per denomination: 2^215, above even the extreme amount class
+// (2^200) and far above the main amount domain (<= 1e33).
+var Generous = new(big.Int).Lsh(big.NewInt(1), 215)
 
 // NewBase builds an application (MemDB, faux-merkle) and funds the fixed accounts.
 func NewBase() (*Base, error) {
